@@ -162,7 +162,7 @@ P("C19", "exploration",
   {"counters.exhaustive-prefix-classes": 257, "validators.handshake-samples": 20000, "validators.announce-samples": 20000, "validators.store-samples": 20000, "binding.field-variations": 300, "solvers.token": 50, "validators.handshake-repeats-inside-cooldown": 5000})
 
 P("C20", "exploration",
-  "part logic: sequences of 3..12 inbound handshakes on one node (valid; invalid key 0/1/p/p+1/2^32-1; other nonce; different key for the same claimed peer with and without its own valid PoW) at spacings 0 / 1ns / cooldown-1ns / cooldown / beyond, "
+  "part logic: sequences of 3..12 inbound handshakes on one node (valid; invalid key 0/1/p/p+1/2^32-1; any key outside (1,p) - also key+p aliases of valid keys - with a PoW genuinely solved for it; other nonce; different key for the same claimed peer with and without its own valid PoW) at spacings 0 / 1ns / cooldown-1ns / cooldown / beyond, "
   "cooldown 0/1/5/60 s, difficulty 0 or 2..8, through Node::handle_transport_handshake; oracle: accepted iff key in (1,p) and lz_ref(handshake digest) >= d; on rejection key unchanged and reputation lowered; on acceptance the session key equals HMAC(DH secret, sorted publics) by the reference; "
   "part socket (h_transport): the same over real TCP with ACK/EOF observation; distinct = (difficulty, cooldown, outcome sequence)",
   [H("logic", "h_node2", 5000, 500000, hprop="C20"), H("socket", "h_transport", 60, 3000, hprop="C20s", qworkers=8)], [A_SAN, A_VCLK, A_OSSL],
@@ -187,10 +187,10 @@ P("C23", "exploration",
   {"uploads.chunk-frames": 5000, "uploads.repeated-request-while-in-flight": 300, "uploads.timeouts": 200, "uploads.unservable-requests": 500, "uploads.slot-release-checks": 10000})
 
 P("C24", "exploration",
-  "case = history of 8..67 assigned-fetch ANNOUNCEs (incl. re-announces of an in-flight fetch from the same or another peer), chunk arrivals, ticks and clock steps (next_attempt-1ns / exact / +1ns) with peers that do / do not have a session (send succeeds / fails); limits 0..3, back-off 1..5 s doubling to <= 125 s, attempt limit 0..12; "
-  "oracle after every step: per-peer in-flight <= limit and equal to the node's counter (absent when zero), failed-attempt delays = initial*2^(k-1) capped at max (plateau after 8 doublings accepted), after a scheduling pass no fetch whose chunk is held / manifest expired / attempts exhausted; finally nothing pending; distinct = sequence hash",
+  "case = history of 8..67 assigned-fetch ANNOUNCEs (incl. re-announces of an in-flight fetch from the same or another peer), chunk arrivals, ticks and clock steps (next_attempt-1ns / exact / +1ns) with peers that do / do not have a session (send succeeds / fails) and providers whose session goes away in the middle of the history (sends that succeeded start to fail); limits 0..3, back-off 1..5 s doubling to <= 125 s, attempt limit 0..12; "
+  "oracle after every step: per-peer in-flight <= limit and equal to the node's counter (absent when zero), failed-attempt delays = initial*2^(k-1) capped at max (plateau after 8 doublings accepted), a send that fails with the attempt limit already used up is never scheduled again (decided from the observed history), after a scheduling pass no fetch whose chunk is held / manifest expired / attempts exhausted; finally nothing pending; distinct = sequence hash",
   [H("main", "h_node2", 2000, 300000, hprop="C24")], [A_SAN, A_VCLK, "in-flight is read from the node's pending table (hooked state); only failed attempts count towards the attempt limit (docs: 'cap on retries')"],
-  {"fetch.request-frames": 2000, "fetch.backoff-delays-checked": 2000, "fetch.reannounce-of-in-flight-fetch": 200, "fetch.termination-checks": 3000, "fetch.chunk-arrivals": 300})
+  {"fetch.request-frames": 2000, "fetch.backoff-delays-checked": 2000, "fetch.reannounce-of-in-flight-fetch": 200, "fetch.termination-checks": 3000, "fetch.chunk-arrivals": 300, "fetch.providers-gone-away": 300})
 
 P("C34", "exploration",
   "case = real Node with the STUN test hook returning an address at every IPv4 prefix boundary +-1, random IPv4/IPv6, IPv4-mapped IPv6 and special IPv6 ranges; start_transport(0), then config().advertised_endpoints (non-manual) and the 'transport' hints of a stored manifest; "
